@@ -71,7 +71,7 @@ def make(rng, tier):
         if kind in ("burst", "mixed", "bigset") and r.chance(1, 2):
             ops.append("sleep %d" % r.rng(0, 3))
         ops.append("shutdown")
-        ops.append("waitrun 4000")
+        ops.append("waitrun 15000")
         for c in range(nclients):
             ops.append("recv c%d eof 3000" % c)
         sc = N.Scenario("s%d-%s" % (i, kind), "maxconn=8", ops)
@@ -83,7 +83,7 @@ def make(rng, tier):
             sc.ops.append("storeget %s" % G.rawhex(k))
         scs.append(sc)
     # clients that keep pipelining commands at and after the shutdown signal must not keep run() from returning
-    sc = N.Scenario("flood", "maxconn=8", ["flood 4 6000", "sleep 300", "shutdown", "waitrun 4000"])
+    sc = N.Scenario("flood", "maxconn=8", ["flood 4 6000", "sleep 300", "shutdown", "waitrun 15000"])
     sc.kind, sc.sets, sc.nclients, sc.keys = "flood", {}, 0, []
     scs.append(sc)
     # a pipelined burst of GETs whose replies exceed the 8 KiB write buffer many times, shutdown in the middle
@@ -91,14 +91,14 @@ def make(rng, tier):
     for j in range({"quick": 3, "thorough": 20}[tier]):
         gets = arr(bulk(b"GET"), bulk(b"gk")) * 40
         ops = ["conn c0", "send c0 %s" % G.rawhex(arr(bulk(b"SET"), bulk(b"gk"), bulk(val))), "recv c0 5 5000",
-               "send c0 %s" % G.rawhex(gets), "sleep %d" % j, "shutdown", "waitrun 4000", "recv c0 eof 5000"]
+               "send c0 %s" % G.rawhex(gets), "sleep %d" % j, "shutdown", "waitrun 15000", "recv c0 eof 5000"]
         sc = N.Scenario("getburst%d" % j, "maxconn=8", ops)
         sc.kind, sc.sets, sc.nclients, sc.keys, sc.replen = "getburst", {}, 0, [], len(bulk(val))
         scs.append(sc)
     # shutdown while a handler is in the middle of writing a large reply to a slow (not dead) reader: the reply must arrive whole
     n = 32000000
     ops = ["conn w", "send w %s" % G.rawhex(b"*3\r\n" + bulk(b"SET") + bulk(b"huge") + b"$%d\r\n" % n), "send w %dx5a" % n, "send w 0d0a", "recv w 5 20000",
-           "send w %s" % G.rawhex(arr(bulk(b"GET"), bulk(b"huge"))), "recv w 11 20000", "sleep 300", "shutdown", "sleep 300", "recv w eof 30000", "waitrun 4000"]
+           "send w %s" % G.rawhex(arr(bulk(b"GET"), bulk(b"huge"))), "recv w 11 20000", "sleep 300", "shutdown", "sleep 300", "recv w eof 30000", "waitrun 15000"]
     sc = N.Scenario("slow-reader", "maxconn=8", ops)
     sc.kind, sc.sets, sc.nclients, sc.keys, sc.total = "slow-reader", {}, 0, [], len(b"$%d\r\n" % n) + n + 2
     scs.append(sc)
@@ -141,11 +141,11 @@ def main(tier, seed):
         wr = next((sc.out[i + 1] for i, op in enumerate(sc.ops) if op.startswith("waitrun")), "missing")
         if sc.kind == "flood":
             if not wr.startswith("returned"):
-                rep.failing.append({"what": "run() did not return within 4 s after the shutdown signal while 4 clients kept pipelining commands", "waitrun": wr})
+                rep.failing.append({"what": "run() did not return within 15 s after the shutdown signal while 4 clients kept pipelining commands", "waitrun": wr})
             continue
         if sc.kind == "getburst":
             if not wr.startswith("returned"):
-                rep.failing.append({"what": "run() did not return within 4 s after the shutdown signal (client with a pipelined burst of GETs)", "waitrun": wr})
+                rep.failing.append({"what": "run() did not return within 15 s after the shutdown signal (client with a pipelined burst of GETs)", "waitrun": wr})
                 continue
             line = o.get("recv c0 eof 5000", "missing")
             st, nb = (line.split(":", 2) + ["", ""])[:2]
@@ -163,7 +163,7 @@ def main(tier, seed):
                 rep.failing.append({"what": "a reply in flight at shutdown was torn: the client read %d of the %d bytes of the reply to GET, then %s"
                                             % (got, sc.total, st or rest[:30]), "kind": sc.kind, "ops": [x[:70] for x in sc.ops]})
             elif not wr.startswith("returned"):
-                rep.failing.append({"what": "run() did not return within 4 s after the slow reader had read its whole reply", "waitrun": wr})
+                rep.failing.append({"what": "run() did not return within 15 s after the slow reader had read its whole reply", "waitrun": wr})
             continue
         if sc.kind == "blocked-writer":
             if wr.startswith("timeout"):
@@ -174,7 +174,7 @@ def main(tier, seed):
                     rep.failing.append({"what": "run() did not return within 2.5 s after shutdown: a handler is blocked in write_frame", "ops": sc.ops[:9]})
             continue
         if not wr.startswith("returned"):
-            rep.failing.append({"what": "run() did not return within 4 s after the shutdown signal (clients: %s)" % sc.kind,
+            rep.failing.append({"what": "run() did not return within 15 s after the shutdown signal (clients: %s)" % sc.kind,
                                 "waitrun": wr, "ops": [x[:80] for x in sc.ops[:12]]})
             continue
         for c in range(sc.nclients):
@@ -209,7 +209,7 @@ def main(tier, seed):
         "trusted_base": TRUSTED,
         "evaluations": len(scs), "distinct_nontrivial": len(kinds), "acknowledged_sets_checked": nacked,
         "rule": "shutdown fired while 1-3 clients are idle / have sent half a request / are in the middle of a burst of 20-60 pipelined "
-                "SETs / are sending a 3 MB SET / mixed; run() must return within 4 s, every client stream must be a whole number of "
+                "SETs / are sending a 3 MB SET / mixed; run() must return within 15 s, every client stream must be a whole number of "
                 "replies then end of stream, every SET whose reply was received must be in the store; a client that is slowly reading a 32 MB "
                 "reply when shutdown fires must receive it whole; a pipelined burst of 40 GETs with 3 KB replies must end on a reply boundary; "
                 "four clients that keep pipelining commands must not keep run() from returning; plus the recorded blocked-writer "
@@ -219,7 +219,7 @@ def main(tier, seed):
         "proof": {"file": "coq/Props/C16.v", "theorems": pr["theorems"], "axioms": pr["axioms"]},
     })
     rep.assumptions = ["tokio select!/broadcast/mpsc semantics are modelled; select may keep choosing read_frame while requests keep "
-                       "arriving (probability-1, not bounded, termination)", "timing: 'returns' = within 4 s"]
+                       "arriving (probability-1, not bounded, termination)", "timing: 'returns' = within 15 s"]
     return rep.finish()
 
 
